@@ -460,4 +460,14 @@ theorem C01_C02_local_fresh {cfg : LocalCfg} {sp : Space} {obj : Obj} {c : Call}
     unfold C04.newPos; simpa using hp
   exact ⟨C01_local_positions_in_space hgeo hsp ht hi hP hn h p hnew, C02_local_positions_feasible hgeo hsp ht hi hP hn h p hnew⟩
 
+/-- the same for every population optimizer (any backend satisfying the population contract `PopOK`): when the members' start-up
+    lists are what `split` deals from a list the Initializer model returned, a call evaluates only feasible positions of the space -/
+theorem C01_C02_population_fresh {σ : Type} {b : Backend σ} {view : σ → PopSt} {extra : σ → Prop} {sp : Space} {obj : Obj} {c : Call}
+    {f : Pos → Bool} {tape0 : Tape} {ic : InitCfg} {pPerDim fuel pop : Nat} {dr dr' : Draws} {L : List Pos} {d d' : DState σ} {r : CallResult}
+    (hb : PopRuns.PopOK b view extra sp f) (hdims : DimsOK sp) (ht : TapeOK sp f tape0) (hdr : DrawsIn (InSpace sp) dr)
+    (hinit : setPos f sp ic pPerDim fuel dr = .ok (L, dr'))
+    (hP : PopRuns.Inv view extra sp tape0 (splitDeal L pop) d) (hn : 0 < c.nIter) (h : searchCall b sp obj c d = .ok (d', r)) :
+    ∀ p ∈ C04.newPos d d', InSpace sp p ∧ f p = true :=
+  (PopRuns.pop_call hb ht (population_inits_good f pop (initializer_good f hdims ic pPerDim fuel hdr hinit)) hP hn h).2
+
 end GFO.InitSpace
